@@ -325,3 +325,15 @@ Proof.
   destruct (_ && _); [rewrite Hnil; intros []|].
   destruct (write _ _) as [a' e] eqn:W. apply (Main a' e eq_refl).
 Qed.
+
+(* statements of Properties/C11.v *)
+Lemma pex_never_announced_twice ops p :
+  In p (fst (delta (g_st (prun ops)))) -> ~ In (addr p) (g_wire (prun ops)).
+Proof. apply delta_adds_fresh, prun_inv. Qed.
+Lemma pex_drop_only_announced ops p :
+  In p (snd (delta (g_st (prun ops)))) -> In (addr p) (g_wire (prun ops)).
+Proof. apply delta_drops_announced, prun_inv. Qed.
+Lemma pex_departure_queued ops p :
+  In (addr p) (g_wire (prun ops)) ->
+  In (addr p) (map addr (px_pending_del (g_st (pstep (prun ops) (PDel p))))).
+Proof. apply del_queues_drop, prun_inv. Qed.
